@@ -271,6 +271,8 @@ def c01(tier, seed):
                 for st in ([mode] if mode else ["0s", "full", "cut", "cut"]):
                     prop = {"body": TEMPLATES[tn]()}
                     fl = {"checks": checks, "seed": sd, "nofailfile": rng.choice(["true", "false"])}
+                    if len(out) % 4 == 0:
+                        fl["v"] = "true"
                     tag = {"template": tn, "shrink": st}
                     if st == "0s":
                         fl["shrinktime"] = "0s"
@@ -496,6 +498,8 @@ def c09(tier, seed):
                     fs.append({"path": ff_path(name, "c"), "text": failfile_text([], version="v0.0.1")})
                     fs.append({"path": ff_path(name, "d"), "text": failfile_text([])})
                 fl = {"checks": N, "seed": rng.randrange(1, 1 << 64), "shrinktime": "0s"}
+                if len(out) % 3 == 0:
+                    fl["v"] = "true"     # the verbose protocol: every random test case announced with number and seed, closed with its outcome
                 if files == "explicit":   # -rapid.failfile names one more file: the ones found in the test's directory are still replayed
                     fs.append({"path": "elsewhere/e.fail", "text": failfile_text([0, 0, 0])})
                     fl["failfile"] = "elsewhere/e.fail"
